@@ -577,6 +577,19 @@ func docStreams(c *Ctx, o docOpts, f func(stream string, doc []byte)) {
 					}
 					f("deep-openers", []byte(d))
 				}
+				// systematically: behind the openers, a delimiter and a complete link, twice, with a
+				// further opener in between and an unmatched delimiter at the end (bookkeeping of
+				// brackets and delimiters that goes out of step at the limit shows only when both
+				// kinds are pending on more than one level)
+				if op == "[" || op == "![" || op == "*" || op == "_" || op == "[a](" {
+					for _, x := range []string{"_a [b](/u) ", "*a [b][r] ", "**a ![i](/s) "} {
+						for _, y := range []string{"[", "![", ""} {
+							for _, z := range []string{" *c", " _c", ""} {
+								f("deep-openers", []byte(strings.Repeat(op, n)+x+y+x+z))
+							}
+						}
+					}
+				}
 			}
 		}
 	}
